@@ -229,11 +229,14 @@ namespace bxdecay0 {
   // static
   const std::string & dbd_gA::env_data_base_dir()
   {
-    static std::string _dbd_gA_data_root;
-    const char * env_key = "BXDECAY0_DBD_GA_DATA_DIR";
-    if (std::getenv(env_key) != nullptr) {
-      _dbd_gA_data_root = std::string(std::getenv(env_key));
-    }
+    // Read once, inside the (thread-safe) initialization of the function-local static:
+    static const std::string _dbd_gA_data_root = []() {
+      const char * env_key = "BXDECAY0_DBD_GA_DATA_DIR";
+      if (std::getenv(env_key) != nullptr) {
+        return std::string(std::getenv(env_key));
+      }
+      return std::string();
+    }();
     return _dbd_gA_data_root;
   }
 
